@@ -167,6 +167,25 @@ def deep_family():
     return out
 
 
+def large_family():
+    """deterministic histories on meshes of about a thousand leaves (sizes that generated histories of some dozen
+    operations never reach): uniform refinement, then local bisections of every selector kind, markings with sparse
+    and cyclic indicators, a uniform space refinement and the gmsh export"""
+    out = []
+    specs = [({'kind': 'param', 'curve': 'UnitSquare', 'ts': [0.0, 1.0], 'xs': None}, 4),
+             ({'kind': 'param', 'curve': 'Circle', 'ts': [0.0, 0.5, 1.0], 'xs': None}, 4),
+             ({'kind': 'abstract', 'glue': False, 'xs': [0.0, 1.0, 2.0], 'ts': [0.0, 1.0, 3.0]}, 4),
+             ({'kind': 'abstract', 'glue': True, 'xs': [0.0, 0.25, 1.0], 'ts': [0.0, 1.0]}, 4)]
+    local = [['x', ['any', 5]], ['t', ['any', 17]], ['tx', ['corner', 3]], ['x', ['xL', 0]], ['t', ['x0', 1]], ['x', ['last0', 0]],
+             ['t', ['last1', 0]], ['tx', ['fine', 2]], ['x', ['tT', 4]], ['t', ['t0', 6]], ['x', ['any', 700]], ['tx', ['any', 333]]]
+    for spec, n_unif in specs:
+        out.append({'kind': 'history', 'mesh': spec, 'ops': [['unif']] * n_unif + local})
+        out.append({'kind': 'history', 'mesh': spec, 'ops': [['unif']] * (n_unif - 1) + local[:6] + [
+            ['aniso', 0.5, {'vals': [1.0, 0.2, 0.7]}], ['iso', 0.3, {'vals': [1.0, 0.0, 0.0, 0.0, 0.5]}]] + local[6:]})
+        out.append({'kind': 'history', 'mesh': spec, 'ops': [['unif']] * (n_unif - 1) + local[:4] + [['unifx']] + local[4:8]})
+    return out
+
+
 def grade_guard(live, sigma, cap):
     from vlib.meshgrade import predict
     return predict(live, sigma, 4, cap)
